@@ -16,6 +16,7 @@ Decided:
  L5 admissible sizes (thorough tier, compile-fail witnesses): sizes that are not a power of two or exceed 65535 do not
     compile.
  L6 release = C09.R4 (RAII owner: single constructor, Drop returns exactly what was allocated, no leaks).
+ L7 transports' queue_set write each area address (low/high word) into that area's registers (= C10.M2 / C11.W3 traces).
 Not decided: zeroing relies on the Hal::dma_alloc contract.
 """
 from .common import *
@@ -43,6 +44,8 @@ def run(F, R):
     l4_refusal(F, R, M)
     from .C09 import r4_raii
     r4_raii(F, R, M, rule='L6')
+    # L7: the registered addresses reach the device unchanged: transports' queue_set register traces (C10.M2 / C11.W3)
+    transport_registration_rule(F, R, 'L7')
 
 
 def registration_rule(F, R, rule):
